@@ -63,7 +63,9 @@ def sg (b : Bool) (x : R) : R := if b then -x else x
 @[simp] theorem sg_true (x : R) : sg true x = -x := rfl
 
 theorem sg_add (b : Bool) (x y : R) : sg b (x + y) = sg b x + sg b y := by
-  cases b <;> simp <;> abel
+  cases b
+  · simp
+  · simp; abel
 
 theorem sg_neg (b : Bool) (x : R) : sg b (-x) = -sg b x := by
   cases b <;> simp
@@ -153,8 +155,8 @@ theorem soundTR_add {g1 g2 : Grade} {v1 v2 : R} (h1 : SoundTR A g1 v1) (h2 : Sou
   · rename_i a b c d
     by_cases h : a = c ∧ b = d
     · obtain ⟨rfl, rfl⟩ := h
-      simp only [and_self, if_true, SoundTR, map_add, h1, h2, sg_add]
-    · simp only [h, if_false, SoundTR]
+      simp only [and_self, if_true, map_add, h1, h2, sg_add]
+    · simp only [h, if_false]
 
 theorem soundTR_mul {g1 g2 : Grade} {v1 v2 : R} (h1 : SoundTR A g1 v1) (h2 : SoundTR A g2 v2) :
     SoundTR A (g1.mul g2) (v1 * v2) := by
@@ -222,9 +224,11 @@ theorem grade_sound_TR_aux (hA : TRSym A) : ∀ e : PExpr, SoundTR A (grade e) (
     simp only [grade, eval]
     cases hg : grade x <;> simp only [hg, SoundTR] at *
     · simp [h]
-    · simp only [map_mul, map_add, A.rev_cst, A.conj_cst, A.rev_conj, h, map_sg', sg_add]
+    · simp only [map_mul, map_add, A.rev_cst, A.conj_cst, A.rev_conj, h, map_sg']
       rename_i t i
-      cases t <;> simp <;> noncomm_ring
+      cases t
+      · simp
+      · simp; noncomm_ring
   | .im x => by
     have h := grade_sound_TR_aux hA x
     simp only [grade, eval]
@@ -232,7 +236,9 @@ theorem grade_sound_TR_aux (hA : TRSym A) : ∀ e : PExpr, SoundTR A (grade e) (
     · simp [h]
     · simp only [map_mul, map_sub, A.rev_cst, A.conj_cst, A.rev_conj, A.rev_I, A.conj_I, h, map_sg']
       rename_i t i
-      cases t <;> simp <;> noncomm_ring
+      cases t
+      · simp
+      · simp; noncomm_ring
 
 end TR
 
@@ -248,8 +254,8 @@ theorem soundInv_add {g1 g2 : Grade} {v1 v2 : R} (h1 : SoundInv A g1 v1) (h2 : S
   · rename_i a b c d
     by_cases h : a = c ∧ b = d
     · obtain ⟨rfl, rfl⟩ := h
-      simp only [and_self, if_true, SoundInv, map_add, h1, h2, sg_add]
-    · simp only [h, if_false, SoundInv]
+      simp only [and_self, if_true, map_add, h1, h2, sg_add]
+    · simp only [h, if_false]
 
 theorem soundInv_mul {g1 g2 : Grade} {v1 v2 : R} (h1 : SoundInv A g1 v1) (h2 : SoundInv A g2 v2) :
     SoundInv A (g1.mul g2) (v1 * v2) := by
@@ -313,9 +319,11 @@ theorem grade_sound_Inv_aux (hA : InvSym A) : ∀ e : PExpr, SoundInv A (grade e
     simp only [grade, eval]
     cases hg : grade x <;> simp only [hg, SoundInv] at *
     · simp [h]
-    · simp only [map_mul, map_add, A.rev_cst, A.rev_conj, h, map_sg', sg_add]
+    · simp only [map_mul, map_add, A.rev_cst, A.rev_conj, h, map_sg']
       rename_i t i
-      cases i <;> simp <;> noncomm_ring
+      cases i
+      · simp
+      · simp; noncomm_ring
   | .im x => by
     have h := grade_sound_Inv_aux hA x
     simp only [grade, eval]
@@ -323,7 +331,9 @@ theorem grade_sound_Inv_aux (hA : InvSym A) : ∀ e : PExpr, SoundInv A (grade e
     · simp [h]
     · simp only [map_mul, map_sub, A.rev_cst, A.rev_conj, A.rev_I, h, map_sg']
       rename_i t i
-      cases i <;> simp <;> noncomm_ring
+      cases i
+      · simp
+      · simp; noncomm_ring
 
 end Inv
 
